@@ -370,6 +370,17 @@ UNITS.append(Unit('channel_view', 'C02', C_CH, extracts=X_CH, replay=REPLAY_CH, 
                            'a non-step x-iterator type steps by memunit_step(x_iterator()) (probe: sizeof(pixel) interleaved, sizeof(channel) planar)']))
 
 # ---------------------------------------------------------------------------------------------------------------------------------------
+def lower_adaptor_ctor(body):
+    """dereference_iterator_adaptor<Iterator,DFn>(base [, fn]) -> ghost constructor; a missing function-object argument is the default-constructed one"""
+    def fn(a):
+        if len(a) == 2:
+            return 'DEREF_ADAPTOR_CTOR(%s, %s)' % tuple(a)
+        if len(a) == 1:
+            return 'DEREF_ADAPTOR_CTOR(%s, DEFAULT_FN)' % a[0]
+        raise ex.ExtractError('dereference_iterator_adaptor constructor with %d arguments' % len(a))
+    return ex.rewrite_calls(body, r'dereference_iterator_adaptor<Iterator,DFn>\(', fn)
+
+
 # make_step_iterator over compound iterators (step_iterator.hpp): "step composition for adaptors of adaptors"
 SI = 'step_iterator.hpp'
 X_MSI = [X('msi_false', SI, r'auto make_step_iterator_impl\(I const& it, std::ptrdiff_t step, std::false_type\)\s*->[^{]*\{', count=1,
@@ -378,7 +389,11 @@ X_MSI = [X('msi_false', SI, r'auto make_step_iterator_impl\(I const& it, std::pt
            rules=[('R12.ctor', r'memory_based_step_iterator<BaseIt>\(it\.base\(\), step\)', 'STEP_ITER_CTOR(BASE(it), step)', True)]),
          X('msi_deref', SI, r'auto make_step_iterator_impl\(\s*dereference_iterator_adaptor<It, DFn> const& it,\s*std::ptrdiff_t step,\s*std::true_type\)\s*->[^{]*\{', count=1,
            rules=[('R6.drop_using', r'using result_t = [^;]+;', '', False), ('R12.ctor', r'\bresult_t\(', 'DEREF_ADAPTOR_CTOR(', True),
-                  ('R11.base', r'\bit\.base\(\)', 'BASE(it)', True), ('R11.fn', r'\bit\.deref_fn\(\)', 'DEREF_FN(it)', True)])]
+                  ('R11.base', r'\bit\.base\(\)', 'BASE(it)', True), ('R11.fn', r'\bit\.deref_fn\(\)', 'DEREF_FN(it)', True)]),
+         # memunit_advanced(dereference_iterator_adaptor const& p, diff): behind view(x,y), locator(x,y) and cached locations of adapted views
+         X('madv_deref', 'pixel_iterator_adaptor.hpp', r'inline auto memunit_advanced\(dereference_iterator_adaptor<Iterator,DFn> const& p,\s*typename std::iterator_traits<Iterator>::difference_type diff\)\s*->[^{]*\{', count=1,
+           rules=[('R12.ctor', lambda body: lower_adaptor_ctor(body), None, True), ('R11.adv', r'\bmemunit_advanced\(p\.base\(\), diff\)', 'MEMUNIT_ADVANCED_BASE(BASE(p), diff)', True),
+                  ('R11.fn', r'\bp\.deref_fn\(\)', 'DEREF_FN(p)', False)])]
 C_MSI = r'''
 /* ghost compound x-iterator: up to two dereference adaptors (function-object states fn0 outer, fn1 inner) over an optional
    memory_based_step_iterator over a plain pixel pointer at address a */
@@ -388,6 +403,9 @@ static git_t BASE(const git_t* it) { git_t r = *it; if (r.nderef > 0) { r.nderef
 /* dereference_iterator_adaptor(base, fn) and memory_based_step_iterator(base, step) store their arguments */
 static git_t DEREF_ADAPTOR_CTOR(git_t base, int64_t fn) { git_t r = base; __CPROVER_assert(base.nderef < 2, "ghost: at most two adaptor layers"); r.nderef = base.nderef + 1; r.fn1 = base.fn0; r.fn0 = fn; return r; }
 static git_t STEP_ITER_CTOR(git_t base, ptrdiff_t step) { git_t r = base; __CPROVER_assert(base.nderef == 0 && !base.has_step, "the step iterator wraps the plain base iterator"); r.has_step = 1; r.step = step; return r; }
+#define DEFAULT_FN ((int64_t)0)                /* a default-constructed function object */
+static git_t MEMUNIT_ADVANCED_BASE(git_t base, ptrdiff_t diff) { git_t r = base; r.a = base.a + diff; return r; }      /* memunit_advanced of the base iterator: its address moves by diff memory units */
+git_t madv_deref(const git_t* p, ptrdiff_t diff) @@madv_deref@@
 git_t msi_false(const git_t* it, ptrdiff_t step) @@msi_false@@
 git_t msi_step(const git_t* it, ptrdiff_t step) @@msi_step@@
 /* make_step_iterator dispatches on is_iterator_adaptor and, by partial ordering, on the adaptor kind; the recursion through it.base() is
@@ -408,6 +426,11 @@ void h_make_step_iterator(void){ git_t it; ptrdiff_t s; __CPROVER_assume(0 <= it
   __CPROVER_assert(r.has_step && r.step == s, "make_step_iterator.ensures: the step iterator inside the result has the requested step");
   __CPROVER_assert(r.nderef == it.nderef && r.fn0 == it.fn0 && r.fn1 == it.fn1, "make_step_iterator.ensures: every dereference adaptor keeps its function object (channel index of nth_channel_deref_fn, colour converter, ...)");
   __CPROVER_assert(0, "VACUITY"); }
+void h_memunit_advanced(void){ git_t it; ptrdiff_t d; __CPROVER_assume(1 <= it.nderef && it.nderef <= 2 && -((int64_t)1 << 40) <= it.a && it.a <= ((int64_t)1 << 40) && -((int64_t)1 << 40) <= d && d <= ((int64_t)1 << 40)); if (it.nderef < 2) it.fn1 = 0;
+  git_t r = madv_deref(&it, d);
+  __CPROVER_assert(r.a == it.a + d && r.has_step == it.has_step && r.step == it.step, "memunit_advanced(adaptor, diff): the base iterator moves by diff memory units");
+  __CPROVER_assert(r.nderef == it.nderef && r.fn0 == it.fn0 && r.fn1 == it.fn1, "memunit_advanced(adaptor, diff) keeps the adaptor's function object (view(x,y) of an adapted view reads through the same function as iteration)");
+  __CPROVER_assert(0, "VACUITY"); }
 #endif
 '''
 REPLAY_MSI = r'''
@@ -419,6 +442,8 @@ int main(int argc, char** argv){ vr::parse(argc, argv);
   rgb16_image_t img(4, 3); auto v = view(img); for (int y = 0; y < 3; y++) for (int x = 0; x < 4; x++) v(x, y) = rgb16_pixel_t(256 * (x + 1), 256 * (10 + x + 4 * y), 256 * (100 + x + 5 * y));
   auto cc = color_converted_view<rgb8_pixel_t>(v);
   for (int n = 0; n < 3; n++) { auto nv = nth_channel_view(cc, n);
+    { auto it = nv.begin(); for (int y = 0; y < 3; y++) for (int x = 0; x < 4; x++, ++it) if (nv(x, y)[0] != (*it)[0])
+        REPRODUCED("nth_channel_view(color_converted_view(v), %d)(%d,%d) = %d, but iterating the same view yields %d there", n, x, y, (int)nv(x, y)[0], (int)(*it)[0]); }
     auto f = flipped_left_right_view(nv); for (int y = 0; y < 3; y++) for (int x = 0; x < 4; x++) if (f(x, y)[0] != nv(3 - x, y)[0])
       REPRODUCED("flipped_left_right_view(nth_channel_view(color_converted_view(v), %d))(%d,%d) = %d, but the source pixel (%d,%d) holds %d", n, x, y, (int)f(x, y)[0], 3 - x, y, (int)nv(3 - x, y)[0]);
     auto s2 = subsampled_view(nv, 2, 1); for (int y = 0; y < 3; y++) for (int x = 0; x < 2; x++) if (s2(x, y)[0] != nv(2 * x, y)[0])
@@ -428,7 +453,7 @@ int main(int argc, char** argv){ vr::parse(argc, argv);
   NOT_REPRODUCED("stepped views of adapted views keep the adaptor's function object"); }
 '''
 UNITS.append(Unit('step_adaptor', 'C02', C_MSI, extracts=X_MSI, replay=REPLAY_MSI,
-                  checks=[Check('make_step_iterator', 'h_make_step_iterator', engine='D', timeout=300)],
+                  checks=[Check('make_step_iterator', 'h_make_step_iterator', engine='D', timeout=300), Check('memunit_advanced', 'h_memunit_advanced', engine='D', timeout=300)],
                   assumed=['overload resolution: a dereference_iterator_adaptor argument selects the overload written for it, a memory_based_step_iterator its own, any other iterator the false_type overload',
                            'it.base() strips the outermost layer; the adaptor / step iterator constructors store their arguments; at most two dereference adaptors are stacked (ghost bound)']))
 
